@@ -43,13 +43,13 @@ def save_meta(name, meta):
 
 
 def cmd_import(args):
-    src = os.path.join({1: "/tmp/seed", 2: "/tmp/seed2", 3: "/tmp/seed3", 4: "/tmp/seed4", 5: "/tmp/seed5"}[args.round], args.prop)
+    src = os.path.join({1: "/tmp/seed", 2: "/tmp/seed2", 3: "/tmp/seed3", 4: "/tmp/seed4", 5: "/tmp/seed5", 6: "/tmp/seed6"}[args.round], args.prop)
     for letter in "ab":
         patch = os.path.join(src, "patch_%s.diff" % letter)
         demo = os.path.join(src, "demo_%s.py" % letter)
         if not (os.path.exists(patch) and os.path.exists(demo)):
             continue
-        name = "%s%s" % (args.prop, {1: {"a": "a", "b": "b"}, 2: {"a": "c", "b": "d"}, 3: {"a": "e", "b": "f"}, 4: {"a": "g", "b": "h"}, 5: {"a": "i", "b": "j"}}[args.round][letter])
+        name = "%s%s" % (args.prop, {1: {"a": "a", "b": "b"}, 2: {"a": "c", "b": "d"}, 3: {"a": "e", "b": "f"}, 4: {"a": "g", "b": "h"}, 5: {"a": "i", "b": "j"}, 6: {"a": "k", "b": "l"}}[args.round][letter])
         d = os.path.join(SEEDED, name)
         os.makedirs(d, exist_ok=True)
         shutil.copy(patch, os.path.join(d, "patch.diff"))
